@@ -33,7 +33,6 @@ step granularity (one event = one atomic step) is the broker model's (C01).
 import Mqtt.Proofs.FramingIso
 import Mqtt.Proofs.BrokerQos
 import Mqtt.Properties.C04
-import Mqtt.Proofs.XlateFraming
 
 namespace Mqtt.Properties.C05
 
@@ -317,28 +316,7 @@ example :
       | none => false) = true := by
   decide
 
-/-! ## Tie to the Go source: `peekMessageSize`
-
-`Mqtt.Generated.Xlate.Service.service.peekMessageSize` is produced from
-`service/sendrecv.go` by `extract/cmd/xlate` on every check.  The ring `svc.in`
-is not translated: `ReadWait` is an argument of the translation (`none` = the call
-blocks); `XlateFraming.rwOracle sz avail` is the `ReadWait` the framing model
-stands for (a ring of `sz` bytes holding `avail`). -/
-
-/-- With that `ReadWait`, the translated `peekMessageSize` returns what the model's returns, for
-every ring size, every stream and every iteration budget ≥ 5 (`sizeToRes`: the packet type and total
-length with a nil error; blocked; `(0, 0, err)` with `ErrBufferFull` when the ring is smaller than
-the header or the `fmt.Errorf` for a fifth length byte).  The model's `allocs` have no counterpart. -/
-theorem C05_peekMessageSize_is_source (sz : Nat) (avail : Bytes) (svc : Mqtt.Generated.Xlate.Service.service)
-    (fuel : Nat) (hfuel : Mqtt.Generated.framingPostMaxCnt ≤ fuel) :
-    Mqtt.Generated.Xlate.Service.service.peekMessageSize fuel false (Mqtt.Proofs.XlateFraming.rwOracle sz avail) svc
-      = Mqtt.Proofs.XlateFraming.sizeToRes sz (peekMessageSize sz avail) :=
-  Mqtt.Proofs.XlateFraming.peekMessageSize_is_source sz avail svc fuel hfuel
-
-/-- the one case the model does not have: no ring yet (`svc.in == nil`) -/
-theorem C05_peekMessageSize_no_ring (rw : Int → Option (List UInt8 × Mqtt.Generated.Xlate.Err))
-    (svc : Mqtt.Generated.Xlate.Service.service) (fuel : Nat) :
-    Mqtt.Generated.Xlate.Service.service.peekMessageSize fuel true rw svc = .ok (0, 0, .var "ErrBufferNotReady") :=
-  Mqtt.Proofs.XlateFraming.peekMessageSize_nil rw svc fuel
+/-! The tie to the Go source (the theorems `C05_…_is_source…` over the regenerated translation
+`Mqtt.Generated.Xlate`) is in `Properties/C05Source.lean`, which nothing imports. -/
 
 end Mqtt.Properties.C05
